@@ -84,6 +84,12 @@ CHECKS = {
         "Trusted: the generator's own line bookkeeping; the diagnostic layout (`--> file:line:col`, `N |` gutters, `failed to parse file`).",
         "4/C14",
     ),
+    "C19": (
+        "runtime monitor: generated postings sweeping account display width, number shape and commodity kind through the real formatter; column positions measured with an independent display-width model",
+        "6*10^4 (quick) / 3*10^6 (thorough) ledgers (~6 postings each): account display widths 1-70 with a bias to the alignment boundary, ASCII / East-Asian wide characters / clear marks, numbers of every digit count, sign, grouping and scale, literal and expression amounts, lots, costs, assertions, assertion-only and amount-less postings, metadata. On the formatter's output every posting starts with four spaces, at least two spaces follow the account, the aligned number ends at display column max(52, account end + 2 + prefix), an assertion-only `=` falls where it would after an amount in that commodity, metadata is indented four spaces, exactly one blank line separates entries; `okane format` prints the same bytes (sample).",
+        "Trusted: the width model in harness/src/checks/c19.rs (explicit code-point ranges; no ambiguous-width characters generated).",
+        "4/C19",
+    ),
 }
 
 NOT_APPLICABLE = []
